@@ -553,6 +553,16 @@ func (g *Gen) resolve(x *Exec, cc *ssa.CallCommon) *target {
 		// function-local names: "param f" / "captured f" qualified by the enclosing function
 		tg.con = g.cs.Funcs[callerPkg.Path()+"|"+tg.display+" in "+relName(x.fn)]
 	}
+	if tg.con == nil {
+		// a value of a named function type of this module: contract `func type <Name>` in the type's package
+		if n, ok := v.Type().(*types.Named); ok && n.Obj().Pkg() != nil && inModule(n.Obj().Pkg()) {
+			if c := g.cs.Funcs[n.Obj().Pkg().Path()+"|type "+n.Obj().Name()]; c != nil {
+				tg.con = c
+				tg.display = "type " + n.Obj().Name()
+				tg.pkg = n.Obj().Pkg()
+			}
+		}
+	}
 	sig := cc.Signature()
 	for i := 0; i < sig.Params().Len(); i++ {
 		tg.params = append(tg.params, sig.Params().At(i).Name())
@@ -807,6 +817,7 @@ func (g *Gen) verifyFunc(fn *ssa.Function, con *Contract) (vc *VC, err error) {
 				continue
 			}
 			env := x.newEnv(x.oldOf(r.st), x.oldOf(r.st))
+			env.atBlock = r.blk
 			env.bindResults(sig, r.vals)
 			v := env.eval(ef.Expr)
 			comp := env.compByName("ghost:" + ef.Name)
@@ -818,6 +829,7 @@ func (g *Gen) verifyFunc(fn *ssa.Function, con *Contract) (vc *VC, err error) {
 				continue
 			}
 			env := x.newEnv(r.st, x.oldOf(r.st))
+			env.atBlock = r.blk
 			env.bindResults(sig, r.vals)
 			t := env.evalBool(cl.Expr)
 			x.obligeClause("post", clauseLabel(cl), r.st.reach, t, cl)
@@ -997,6 +1009,10 @@ func (x *Exec) frameGoals(st *State, only map[string]bool) ([]frameGoal, bool) {
 			}
 			for _, r := range allowedRefs[k] {
 				excl = append(excl, not(eq("fr", r)))
+			}
+			if k == "ChanClosed" && vc.isDeclared(quote("spec$isctxdone")) {
+				// the Done channel of a context is closed by whoever cancels it, at any time: not this function's effect
+				excl = append(excl, not(app("spec$isctxdone", "fr")))
 			}
 			goal = fmt.Sprintf("(forall ((fr Int)) (! (=> %s (= (select %s fr) (select %s fr))) :pattern ((select %s fr))))", and(append([]string{app("<", app("root", "fr"), nextEntry), "(not (= fr 0))"}, excl...)...), now, before, now)
 		} else {
